@@ -815,6 +815,13 @@ class Evaluator:
                 if st.finalbody:
                     ok = self.block(st.finalbody, env, pc, fr) and ok
                 return ok
+            if st.handlers and not st.finalbody and all(
+                    len(h.body) == 1 and isinstance(h.body[0], ast.Return) and isinstance(h.body[0].value, ast.Constant)
+                    for h in st.handlers):
+                # try: ... return X / except E: return <const>  ==  two outcomes gated by an opaque "no exception" atom
+                types_ = ','.join(ast.unparse(h.type) if h.type is not None else '*' for h in st.handlers)
+                atom = truthy(App('completes_without:' + types_, (Const(f'{fr.fi.qualname}:{st.lineno}'),)))
+                return self.branch(atom, list(st.body) + list(st.orelse), st.handlers[0].body, env, pc, fr)
             ok = self.block(st.body, env, pc, fr)
             if ok and st.orelse:
                 ok = self.block(st.orelse, env, pc, fr)
@@ -1604,6 +1611,24 @@ class Evaluator:
                     and len(base.items) == 1 and isinstance(n.func.value, ast.Name):
                 env[n.func.value.id] = Tup((), 'set')
                 return base.items[0]
+            if isinstance(base, Tup) and base.kind == 'list' and isinstance(n.func.value, ast.Attribute) \
+                    and n.func.attr in ('append', 'extend', 'insert'):
+                # obj.attr.append(x) / extend(xs) / insert(i, x) on a list held in an object field: rebind the field
+                holder = self.expr(n.func.value.value, env, fr)
+                new_items = None
+                if n.func.attr == 'append' and len(args) == 1:
+                    new_items = base.items + (args[0],)
+                elif n.func.attr == 'extend' and len(args) == 1:
+                    more = _iter_items(args[0])
+                    new_items = base.items + tuple(more) if more is not None else None
+                elif n.func.attr == 'insert' and len(args) == 2 and isinstance(args[0], sp.Integer):
+                    lst = list(base.items)
+                    lst.insert(int(args[0]), args[1])
+                    new_items = tuple(lst)
+                if isinstance(holder, Obj) and new_items is not None and holder.fields.get(n.func.value.attr) is base:
+                    holder.fields[n.func.value.attr] = Tup(new_items, 'list')
+                    fr.effects.append(('setattr', holder, n.func.value.attr, holder.fields[n.func.value.attr]))
+                    return Const(None)
             if isinstance(base, Tup) and base.kind == 'list' and isinstance(n.func.value, ast.Subscript) \
                     and n.func.attr in ('append', 'extend') and len(args) == 1:
                 # d[k].append(x) on a keyed dict value: rebind the entry
@@ -1739,6 +1764,9 @@ class Evaluator:
                         continue          # updating with an empty iterable changes nothing
                     if isinstance(a, DictV):
                         base.layers += a.copy().layers
+                    elif isinstance(a, Tup) and all(isinstance(p_, Tup) and len(p_.items) == 2 and isinstance(p_.items[0], Const)
+                                                    for p_ in a.items):
+                        base.layers.append({p_.items[0].v: p_.items[1] for p_ in a.items})     # update(pairs)
                     else:
                         base.layers.append(a)
                 if kwargs:
@@ -1947,6 +1975,8 @@ class Evaluator:
             if r is not None:
                 return Const(r)
             return App('isinstance', tuple(a))
+        if name == 'object.__new__' and len(a) == 1 and isinstance(a[0], ClassRef):
+            return Obj(a[0].name, {}, None, a[0].ci)        # a bare instance: fields are set by the caller
         if name == 'callable':
             if a and isinstance(a[0], (ExtRef, FuncRef, ClassRef)):
                 return Const(True)
@@ -1959,6 +1989,11 @@ class Evaluator:
             return a[2]            # a plain number (not declared a Quantity) has no such attribute
         if name == 'getattr' and len(a) >= 2 and isinstance(a[1], Const):
             return self.attr(a[0], a[1].v, fr)
+        if name == 'setattr' and len(a) == 3 and isinstance(a[1], Const) and isinstance(a[1].v, str) and isinstance(a[0], Obj):
+            # setattr(obj, 'name', v) == obj.name = v
+            a[0].fields[a[1].v] = a[2]
+            fr.effects.append(('setattr', a[0], a[1].v, a[2]))
+            return Const(None)
         if name == 'hasattr' and len(a) == 2 and isinstance(a[1], Const) and isinstance(a[0], Tup):
             return Const(a[1].v in ('__len__', '__iter__', '__getitem__'))
         if name == 'hasattr' and len(a) == 2 and isinstance(a[1], Const) and isinstance(a[0], Obj):
@@ -1997,7 +2032,7 @@ class Evaluator:
                 if any(isinstance(t, Const) for t in ts):
                     return Const(name != 'all')
                 return BoolT('and' if name == 'all' else 'or', tuple(ts)) if len(ts) > 1 else (ts[0] if ts else Const(name == 'all'))
-        if name == 'set' and len(a) == 1:
+        if name in ('set', 'frozenset') and len(a) == 1:
             items = _iter_items(a[0])
             if items is not None and all(isinstance(i, Const) for i in items):
                 uniq = []
@@ -2024,6 +2059,19 @@ class Evaluator:
             return d
         if name == 'dict' and not a and kwargs and '**' not in kwargs:
             return DictV([dict(kwargs)])
+        if name in ('itertools.chain', 'chain') and not kwargs:
+            parts = [_iter_items(x) for x in a]
+            if all(p_ is not None for p_ in parts):
+                return Tup(tuple(i for p_ in parts for i in p_), 'list')      # finite concatenation
+        if name == 'dict.fromkeys' and a and not kwargs:
+            items = _iter_items(a[0])
+            if items is not None and all(isinstance(i, Const) for i in items):
+                val = a[1] if len(a) > 1 else Const(None)
+                return DictV([{i.v: val for i in items}])
+        if name == 'dict' and len(a) == 1 and not kwargs and isinstance(a[0], Tup) and all(
+                isinstance(p_, Tup) and len(p_.items) == 2 and isinstance(p_.items[0], Const) for p_ in a[0].items):
+            # dict(pairs) with constant keys
+            return DictV([{p_.items[0].v: p_.items[1] for p_ in a[0].items}])
         if name == 'len' and len(a) == 1 and isinstance(a[0], Const) and isinstance(a[0].v, (str, bytes, tuple, list)):
             return sp.Integer(len(a[0].v))
         if name == 'len' and len(a) == 1:
